@@ -189,4 +189,14 @@ CHECKS["C15"] = {
              + [{"bin": "C15_affinity", "part": "live_grid", "args": ["--only", "live_grid"]}],
 }
 
+CHECKS["C16"] = {
+    "registered": True,
+    "engine": "seqx",
+    "technique": "exhaustive configuration grid, one process per point: sources^settings combinations, invalid values, unknown options and non-pika arguments run through a real pika program that reports the values in effect from inside the runtime; reference resolver as oracle",
+    "level_text": "For the settings worker count, scheduling policy, binding, small stack size, process mask and a free ini entry, every non-empty subset of their sources {command-line option, environment variable, PIKA_COMMANDLINE_OPTIONS, --pika:ini} with the other settings at default, every source pair for every pair of settings (thorough: triples), option-order permutations, invalid values and unknown options per source, and non-pika arguments are each run as a separate process of a probe program; the values the started runtime really uses (worker count, scheduler in use, worker affinities, stack size of a task, config entries) must be the ones the precedence denotes, invalid/unknown input must stop start-up with a message, positional arguments must arrive in order and application options as given.",
+    "level_note": "Where the statement gives no order (environment variable vs PIKA_COMMANDLINE_OPTIONS; a dedicated option vs a generic --pika:ini entry for the same key) either candidate is accepted; application options are compared as a multiset (pika hands them to the entry function re-ordered, positional arguments keep their order); the real 16-PU machine, no synthetic topology.",
+    "rule": "seqx grid, process per point",
+    "parts": [{"bin": "C16_probe", "part": "probe-build", "kind": "buildonly"}, {"kind": "script", "bin": "harness/c16_grid.py", "part": "grid"}],
+}
+
 PENDING = {}
